@@ -4,11 +4,13 @@ import DG.Decode
 import DG.BuildProto
 import DG.Prune
 import DG.Segment
+import DG.Reload
 /-! Line-protocol driver: one request per line on stdin, one answer per line on stdout. -/
 open DG DG.Sexp
 
 structure DState where
   graph : Graph := default
+  hist : DG.Reload.GSt := {}
 
 def joinSp (l : List String) : String := " ".intercalate l
 
@@ -135,6 +137,21 @@ def handle (st : DState) (req : Sexp) : DState × String :=
       let reds := (DG.Build.sortByKey sg.redirects).map fun (a, b) => s!"{a}>{b}"
       (st, joinSp (slots ++ reds ++ [s!"roots={sg.roots.length}"]))
     | none => (st, "bad-op")
+  | .list [.atom "hist-start"] => ({ st with hist := {} }, "ok")
+  | .list [.atom "hist-build", wx, ox, .list (.atom "roots" :: rs), .list (.atom "imports" :: is), fuel] =>
+    match DG.Build.world? wx, DG.Build.opts? ox, nats? rs, DG.Build.imports? is, nat? fuel with
+    | some w, some o, some rs, some is, some fuel =>
+      match DG.Reload.buildMore w o st.hist rs is fuel with
+      | some (g', out) => ({ st with hist := g' }, DG.Build.showSt out)
+      | none => (st, "OUT-OF-FUEL")
+    | _, _, _, _, _ => (st, "bad-op")
+  | .list [.atom "hist-reload", wx, ox, .list (.atom "specs" :: ss), fuel] =>
+    match DG.Build.world? wx, DG.Build.opts? ox, nats? ss, nat? fuel with
+    | some w, some o, some ss, some fuel =>
+      match DG.Reload.reload w o st.hist ss fuel with
+      | some (g', out) => ({ st with hist := g' }, DG.Build.showSt out)
+      | none => (st, "OUT-OF-FUEL")
+    | _, _, _, _ => (st, "bad-op")
   | .list [.atom "valid"] =>
     (st, match st.graph.valid with | some e => e.show | none => "ok")
   | _ => (st, "bad-op")
